@@ -499,7 +499,7 @@ fn main() {
                         &["schedule", "schedule", "schedule", "execute", "execute", "execute", "execute", "cancel", "set_min_delay", "hash"],
                     );
                     let mut id = *pick(&mut r, &["A", "A", "A", "B", "B", "B", "C", "C", "D", "G"]);
-                    let mut dt = *pick(&mut r, &[0i64, 0, 0, 1, 1, 2, 3]);
+                    let mut dt = if r.gen_ratio(1, 25) { 3000 } else { *pick(&mut r, &[0i64, 0, 0, 1, 1, 2, 3]) };
                     // state feedback through the public getter: which operations are pending / unset
                     let leds: Vec<(&str, i64)> = IDS.iter().map(|i| (*i, sys.ledger_of(i))).collect();
                     let pending: Vec<&str> = leds.iter().filter(|(_, l)| *l > 1).map(|(i, _)| *i).collect();
